@@ -20,15 +20,21 @@ def judge(run, trace_path, keyfn):
     return len(events)
 
 
-CLASS = {"quote": "quote", "bslash": "backslash", "lf": "control", "cr": "control", "tab": "control", "soh": "control", "esc": "control",
+CLASS = {"nul": "control", "cdata-end": "markup", "close-tag": "markup", "quote": "quote", "bslash": "backslash", "lf": "control", "cr": "control", "tab": "control", "soh": "control", "esc": "control",
          "inject": "json-fragment", "uescape": "escape-lookalike", "winpath": "backslash", "num": "json-literal", "true": "json-literal",
          "null": "json-literal", "arr": "json-literal", "langmap": "json-literal", "quoted": "quote", "badutf8": "invalid-utf8"}
+
+
+def show(syms):
+    if len(syms) > 8:
+        return "<%s>x%d<%s>" % (syms[0], len(syms) - 1, syms[-1])
+    return "".join("<%s>" % s for s in syms)
 
 
 def sym_class(syms):
     cs = sorted(set(CLASS.get(s, "plain") for s in syms))
     hard = [c for c in cs if c != "plain"]
-    return "+".join(hard) if hard else "plain"
+    return ("long:" if len(syms) >= 100 else "") + ("+".join(hard) if hard else "plain")
 
 
 def gen_strings(run, genl, withbad):
